@@ -38,3 +38,22 @@ Proof.
     split; [reflexivity|]. split; [exact S|]. exists h'. auto.
   - exists (ibin_new cap). split; [reflexivity|]. split; [apply Inv_new | reflexivity].
 Qed.
+
+(** * indexed binomial heap *)
+From Algo.C05 Require Import ProofsBinom.
+
+Definition R_binom cmp (s : state) (m : amap) : Prop :=
+  exists h, s = SBinom h /\ InvB cmp h m.
+
+Lemma ibinom_simulates cmp : TotalPreorder cmp ->
+  forall (cap : nat) (ops : list op),
+    exists outs, run cmp IBinom cap ops = Ok outs /\ length outs = length ops /\
+                 valid_trace cmp (empty_map cap) (combine ops outs).
+Proof.
+  intros TP cap ops. unfold run. apply (run_from_valid cmp (R_binom cmp)).
+  - intros s m o (h & -> & I).
+    destruct (step_spec_B cmp TP h m o I) as (h' & r & m' & E & S & I').
+    exists (SBinom h'), r, m'. cbn [step]. rewrite E. cbn [bind].
+    split; [reflexivity|]. split; [exact S|]. exists h'. auto.
+  - exists (ibinom_new cap). split; [reflexivity|]. split; cbn; [apply ProofsTree.Rep_empty | exact I].
+Qed.
